@@ -131,6 +131,14 @@ func TestC06(t *testing.T) {
 	ki := 0
 	words(len(serverLetters), maxB, func(w []int) {
 		kind := []string{"Bidi", "CStream", "SStream"}[ki%3]
+		if !thorough() && len(w) == maxB {
+			// quick: the words with the unmarshalable SendMsg (letter hx) up to length maxB-1
+			for _, x := range w {
+				if serverLetters[x] == "hx" {
+					return
+				}
+			}
+		}
 		if sc, ok := serverWord(w, kind); ok {
 			ki++
 			run("c06-server", sc)
